@@ -159,17 +159,34 @@ def fact_str(f, reg=None, prog=None):
     return "%s %s %s" % (term_str(f[1], reg, prog), f[0], term_str(f[2], reg, prog))
 
 
+def handle_like(f, k):
+    """parameter k is a bare pointer-to-pointer (void **), not an object handle"""
+    t = f.params[k]["type"] if k < len(f.params) else ""
+    return t.endswith("**")
+
+
 class Analyzer:
     def __init__(self, prog):
         self.prog = prog
         self.summaries = {}
         self.fresh_fns = {}
+        self.out_allocs = {}     # function name -> parameter index that receives a fresh block (int-returning allocators)
         self.order = []
         self._toposort()
         for f in self.order:
             self.summaries[f.key] = FuncAnalysis(f, self).run()
             if self.summaries[f.key].ret_fresh:
                 self.fresh_fns[f.name] = self.summaries[f.key].ret_exact
+            # allocation through an out-parameter: on success *(parameter k) := the function's own fresh block
+            sm = self.summaries[f.key]
+            nz = sm.c("nz")
+            if sm.allocs and nz is not None and not f.internal and not sm.ret_fresh and not f.ret.endswith("*"):
+                own = {iid for (iid, fn, sz, w) in sm.allocs}
+                for k2, (loc, t) in (nz.must or {}).items():
+                    if loc.addr.root[0] == "arg" and len(loc.addr.segs) == 1 and loc.addr.segs[0].off == 0 and \
+                            t[0] == "p" and t[1][0][0] == "heap" and t[1][0][1] in own and t[1][1] == (0,) and \
+                            handle_like(f, loc.addr.root[1]):
+                        self.out_allocs[f.name] = loc.addr.root[1]
 
     def init_of(self, fkey):
         """definitely-initialised byte ranges of pointer parameters at the exits of a function (E5 summary):
